@@ -51,6 +51,53 @@ def _digest(d):
     return out
 
 
+BUNDLED = ["ariadne_codegen.contrib.shorter_results.ShorterResultsPlugin",
+           "ariadne_codegen.contrib.extract_operations.ExtractOperationsPlugin",
+           "ariadne_codegen.contrib.client_forward_refs.ClientForwardRefsPlugin"]
+PROG_TWICE = r"""
+import contextlib, io, json, os, sys
+from ariadne_codegen.main import client
+root = sys.argv[1]
+for sub in ("first", "second"):
+    cfg = dict(schema_path=os.path.join(root, "schema.graphql"), queries_path=os.path.join(root, "queries.graphql"),
+               target_package_name="pkg", target_package_path=os.path.join(root, sub), include_comments="none",
+               plugins=json.loads(sys.argv[2]))
+    os.makedirs(os.path.join(root, sub), exist_ok=True)
+    with contextlib.redirect_stdout(io.StringIO()):
+        client({"tool": {"ariadne-codegen": cfg}})
+"""
+
+
+def replay_generation(seeds=(0, 1, 2, 3, 1000)):
+    """the registered replay: hash seeds and regeneration without plugins and with the bundled plugins, and two
+    generations of the same inputs inside ONE interpreter (`generating twice ... yields byte-identical files`)"""
+    rep = dict(inputs={"scenarios": ["hash-seeds", "hash-seeds+bundled-plugins", "twice-in-one-process", "twice-in-one-process+bundled-plugins"]},
+               failed=[], undetermined=[], pre_ok=True, outcome={}, error=None)
+    for name, plugins, sd in (("hash-seeds", (), seeds), ("hash-seeds+bundled-plugins", BUNDLED, seeds[:3])):
+        r = replay_generation_hash_seeds(sd, plugins)
+        rep["outcome"][name] = r["outcome"]
+        rep["pre_ok"] = rep["pre_ok"] and r["pre_ok"]
+        rep["failed"] += [f"{name}: {f}" for f in r["failed"]]
+    for name, plugins in (("twice-in-one-process", ()), ("twice-in-one-process+bundled-plugins", BUNDLED)):
+        base = tempfile.mkdtemp(prefix="pyvc_det2_")
+        try:
+            open(os.path.join(base, "schema.graphql"), "w").write(SCHEMA)
+            open(os.path.join(base, "queries.graphql"), "w").write(QUERIES)
+            r = subprocess.run([sys.executable, "-c", PROG_TWICE, base, json.dumps(list(plugins))], capture_output=True, text=True, timeout=300)
+            if r.returncode != 0:
+                rep["outcome"][name] = r.stderr[-300:]
+                rep["failed"].append(f"{name}: the second generation in the same interpreter fails")
+                continue
+            a, b = _digest(os.path.join(base, "first", "pkg")), _digest(os.path.join(base, "second", "pkg"))
+            differing = sorted(fn for fn in set(a) | set(b) if a.get(fn) != b.get(fn))
+            rep["outcome"][name] = dict(files=len(a), differing_files=differing)
+            if differing:
+                rep["failed"].append(f"{name}: generated files differ between the first and the second generation")
+        finally:
+            shutil.rmtree(base, ignore_errors=True)
+    return rep
+
+
 def replay_generation_hash_seeds(seeds=(0, 1, 2, 3, 1000), plugins=()):
     rep = dict(inputs={"schema": "fragment/enum/union rich", "seeds": list(seeds), "plugins": list(plugins)}, failed=[], undetermined=[],
                pre_ok=True, outcome={}, error=None)
